@@ -246,12 +246,9 @@ func template(r *core.Rand, v reflect.Value, depth int, rules proto.RewriterRule
 			m := reflect.MakeMap(ft)
 			var parts []string
 			for k := r.Intn(3); k > 0; k-- {
-				key := r.ASCIIString(1, 6)
+				key := r.ASCIIString(0, 6) // "" included: an entry without key member
 				ev := reflect.New(ft.Elem()).Elem()
-				js := scalarTemplate(r, ev)
-				if isZeroScalar(ev) {
-					continue // a zero value would produce an entry without value: keep templates unambiguous
-				}
+				js := scalarTemplate(r, ev) // zero included: an entry without value member, m[key] = zero
 				kb, _ := stdjson.Marshal(key)
 				if m.MapIndex(reflect.ValueOf(key)).IsValid() {
 					continue
@@ -267,10 +264,7 @@ func template(r *core.Rand, v reflect.Value, depth int, rules proto.RewriterRule
 			for k := r.Intn(3); k > 0; k-- {
 				ev := reflect.New(ft.Elem()).Elem()
 				js := template(r, ev, depth+1, nil, true) // elements fully specified
-				if isEmpty(ev) {
-					continue // an element that encodes to nothing is not written
-				}
-				s = reflect.Append(s, ev)
+				s = reflect.Append(s, ev)                 // an empty element is an element
 				parts = append(parts, js)
 			}
 			dst.Set(s)
@@ -282,9 +276,7 @@ func template(r *core.Rand, v reflect.Value, depth int, rules proto.RewriterRule
 				ev := reflect.New(ft.Elem()).Elem()
 				js := scalarTemplate(r, ev)
 				parts = append(parts, js)
-				if !isZeroScalar(ev) {
-					s = reflect.Append(s, ev) // zero elements of a repeated template are not written
-				}
+				s = reflect.Append(s, ev) // zero elements count
 			}
 			dst.Set(s)
 			members = append(members, string(name)+":["+strings.Join(parts, ",")+"]")
@@ -794,7 +786,7 @@ func witnessRepeatedMessage(c *core.Case) {
 func init() {
 	core.Register(&core.Monitor{
 		Prop:    "C19",
-		Rule:    "templates: a message type (1-7 fields per level, nesting <= 2; all scalar kinds, zigzag/fixed tags, nested by value and by pointer, repeated scalars and messages, string-keyed maps; all fields tagged with names and numbers incl. 63/64/65, 255/256/257, 2047/2048, 65535/65536, 131071, or none tagged), an encoded input (canonical, or with unknown fields interleaved at all levels) and a JSON template over a random subset of fields (zero values included; nested templates; repeated and map fields replaced as a whole; BitOr rules for integer fields, also nested RewriterRules). The expected value is computed independently by applying the template to the decoded input with reflection. Checked: ParseRewriteTemplate and Rewrite do not fail or panic; the output is a well-formed message (reference scanner, dynamicpb) that decodes to the expected value; the fields the template does not mention form the same ordered (number, wire type, bytes) list in input and output; input and template bytes unchanged; out is appended to; a second application gives the same bytes. literals: MessageRewriter / MultiRewriter with a rule for field numbers up to 70000. Distinct by (type, template).",
+		Rule:    "templates: a message type (1-7 fields per level, nesting <= 2; all scalar kinds, zigzag/fixed tags, nested by value and by pointer, repeated scalars and messages, string-keyed maps; all fields tagged with names and numbers incl. 63/64/65, 255/256/257, 2047/2048, 65535/65536, 131071, or none tagged), an encoded input (canonical, or with unknown fields interleaved at all levels) and a JSON template over a random subset of fields (zero values included, also as elements of repeated fields, as all-zero message elements and as empty map keys and zero map values; nested templates; repeated and map fields replaced as a whole; BitOr rules for integer fields, also nested RewriterRules). The expected value is computed independently by applying the template to the decoded input with reflection. Checked: ParseRewriteTemplate and Rewrite do not fail or panic; the output is a well-formed message (reference scanner, dynamicpb) that decodes to the expected value; the fields the template does not mention form the same ordered (number, wire type, bytes) list in input and output; input and template bytes unchanged; out is appended to; a second application gives the same bytes. literals: MessageRewriter / MultiRewriter with a rule for field numbers up to 70000. Distinct by (type, template).",
 		Trusted: []string{"the reflection-based template application in mon/c19 (transcribed from the statement)", "protowire / dynamicpb v1.25.0 for well-formedness", "proto.Unmarshal of the same build to decode input and output (its correctness is C03/C12)"},
 		Subs: []core.Sub{
 			{Name: "templates", N: core.Const(20000, 600000), Run: runTemplates},
